@@ -518,8 +518,12 @@ def get_request_id() -> int:  # pragma: no cover
 
     This returns a simple integer used to validate if a given response
     matches with the given request.
+
+    The value stays inside the non-negative Integer32 range which is the only
+    range that is valid both as request-id (rfc3416#section-3) and as v3
+    msgID (rfc3412#section-6), whatever the clock says.
     """
-    return int(time())
+    return int(time()) & 0x7FFFFFFF
 
 
 def sync(coro: Awaitable[T]) -> T:
